@@ -11,7 +11,8 @@
    the 10-minute grid brackets a node, scipy's bisect contract, binary64 rounding of the cubic. *)
 From Coq Require Import ZArith QArith Qabs List Reals.
 From PyOrb.model Require Import M_NodeTime.
-From PyOrb.proofs Require Import P_NodeTime.
+From PyOrb.gen Require Import Gen_orbnum.
+From PyOrb.proofs Require Import P_NodeTime P_OrbitNumber.
 Import ListNotations.
 Open Scope Z_scope.
 
@@ -101,6 +102,24 @@ Theorem C11_monotone : forall rev period nd ndd x y : R,
   (orbit_real rev x period nd ndd < orbit_real rev y period nd ndd)%R.
 Proof. exact orbit_real_increasing. Qed.
 Print Assumptions C11_monotone.
+
+(* SOURCE TIE for the formula: gen_orbit_float / gen_orbit_float_tbus (gen/Gen_orbnum.v) are regenerated on every
+   run by executing Orbital.get_orbit_number of /repo symbolically (node time and nodal period cached, as_float).
+   d = query instant, d_an = cached node time [days], period = cached nodal period [days], rev / nd / ndd = the TLE
+   fields.  It is the cubic of C11_monotone in dt = d - d_an, so the continuous orbit number never decreases over
+   the property's window, and the TBUS variant is exactly one larger. *)
+Theorem C11_source_formula : forall d d_an period rev nd ndd : R,
+  (gen_orbit_float d d_an period rev nd ndd = orbit_real rev (d - d_an) period nd ndd)%R /\
+  (gen_orbit_float_tbus d d_an period rev nd ndd = gen_orbit_float d d_an period rev nd ndd + 1)%R.
+Proof. intros. split; [apply gen_orbit_float_spec|apply gen_orbit_tbus_spec]. Qed.
+Print Assumptions C11_source_formula.
+
+Theorem C11_source_monotone : forall d_an period rev nd ndd x y : R,
+  (0 < period <= 4 / 25)%R -> (Rabs nd <= 1 / 2)%R -> (Rabs ndd <= 1 / 100)%R ->
+  (-1 <= x - d_an)%R -> (x < y)%R -> (y - d_an <= 5)%R ->
+  (gen_orbit_float x d_an period rev nd ndd < gen_orbit_float y d_an period rev nd ndd)%R.
+Proof. exact gen_orbit_increasing. Qed.
+Print Assumptions C11_source_monotone.
 
 (* the lazily cached pair depends only on the TLE: whatever queries came before, in any order, each
    answer is the one computed from the TLE-only value *)
